@@ -1,5 +1,6 @@
 import Walrus.Run
 import Walrus.Replace
+import Walrus.Rename
 import Walrus.Driver.ModuleD
 
 /-! `exec <seed> <rounds> <gas> <module text>` → the observation of the scripted run;
@@ -108,9 +109,9 @@ def handleReplace (ws : List String) : String :=
       | some E, some body =>
         let spec : Option String :=
           if kind = "imp" then
-            (E.replaceImported k body).map fun E' => observeWith mA E'.fsigs (invoke E' gas) seed rounds
+            (E.replaceImported k body).map fun E' => observeWith mA E'.ftab E'.usigs (invoke E' gas) seed rounds
           else
-            (replaceExported mA E k body).map fun p => observeWith p.1 p.2.fsigs (invoke p.2 gas) seed rounds
+            (replaceExported mA E k body).map fun p => observeWith p.1 p.2.ftab p.2.usigs (invoke p.2 gas) seed rounds
         (match spec with
          | none => "edit-rejected"
          | some os =>
@@ -118,6 +119,108 @@ def handleReplace (ws : List String) : String :=
            if os = ob then "same" else firstDiff (os.splitOn "; ") (ob.splitOn "; ") 0)
       | _, _ => "ill-formed"
     | _, _, _, _ => "bad-op"
+  | _ => "bad-op"
+
+
+/-! `rentie <seed> <rounds> <gas> <module A> || <module B>`: the hypotheses of the renumbering
+    theorem (`EnvRen`, Proofs/Rename.lean) evaluated on the real pair: with the maps the model
+    computes (function order, type order, local slots), B re-indexed to A's uids must be the
+    renumbering of `elide A`; and B must be observed identically under both uid assignments. -/
+
+mutual
+def btsI : SI → List BT
+  | .op _ => []
+  | .block bt b => bt :: btsL b
+  | .loop bt b => bt :: btsL b
+  | .ite bt t e => bt :: (btsL t ++ btsL e)
+def btsL : SL → List BT
+  | .nil => []
+  | .cons h t => btsI h ++ btsL t
+end
+
+def handleRenTie (ws : List String) : String :=
+  match ws with
+  | sd :: rn :: gs :: rest =>
+    match sd.toNat?, rn.toNat?, gs.toNat? with
+    | some seed, some rounds, some gas =>
+      let (a, b) := splitAtBar rest
+      let mA := parseModule a
+      let mB := parseModule b
+      let nif := importedCount mA "f"
+      let c : InCode := ⟨mA.sigs, nif, mA.code.zip mA.funcs |>.map fun p => ⟨p.2, p.1.1, p.1.2⟩⟩
+      match parseCode c, mkEnv mA, mkEnv mB with
+      | some pfs, some EA0, some EB =>
+        match emitCode c pfs with
+        | none => "panic"
+        | some oc =>
+          let EA := EA0.elide
+          let n := EA.ufuncs.length
+          if EB.ufuncs.length ≠ n then "function-count" else
+          -- the maps
+          let fρ : Nat → Nat := fun f =>
+            if f < nif then f else
+              let j := oc.order.idxOf (f - nif)
+              if j < oc.order.length then nif + j else n + f
+          let yρ : Nat → Nat := fun y => match mA.sigs[y]? with
+            | some sg => let k := mB.sigs.findIdx (· == sg); if k < mB.sigs.length then k else mB.sigs.length + y
+            | none => mB.sigs.length + y
+          let btρ : BT → BT := fun bt => match bt with
+            | .idx k => (match mA.sigs[k]? with
+              | some ([], []) => .empty
+              | some ([], [t]) => .val t
+              | some _ => .idx (yρ k)
+              | none => .empty)
+            | other => other
+          let xρ : Nat → Nat → Nat := fun u x =>
+            match pfs[u - nif]?, oc.funcs.find? (·.id = u) with
+            | some pf, some ofn =>
+              (match pf.localTys[x]? with
+               | some (lid, _) => (assoc ofn.localMap lid).getD (1000000 + x)
+               | none => 1000000 + x)
+            | _, _ => x
+          -- B re-indexed to A's uids
+          let ftab' : List Nat := (List.range n).map fun j =>
+            ((List.range n).find? fun u => fρ u == j).getD (n + j)
+          let ufuncs' : List FuncInfo := (List.range n).map fun u =>
+            match EB.ufuncs[fρ u]?, EA.ufuncs[u]? with
+            | some fb, some fa =>
+              let lt' := fb.lt.zipIdx.map fun p =>
+                let x := ((List.range fa.lt.length).find? fun x => xρ u x == p.2).getD (1000000 + p.2)
+                (x, p.1.2)
+              { fb with lt := lt' }
+            | _, _ => ⟨([], []), none, [], .nil⟩
+          let E' : Env := ⟨EB.types, ftab', ufuncs'⟩
+          -- EnvRen, field by field
+          let cFt := (List.range (n + 2)).all fun f => E'.ftab[fρ f]? == EA.ftab[f]?
+          let cTy := (List.range (mA.sigs.length + 2)).all fun y => E'.types[yρ y]? == EA.types[y]?
+          let allBts := EA.ufuncs.flatMap fun fi => btsL fi.body
+          let cBt := allBts.all fun bt => arity E'.types (btρ bt) == arity EA.types bt
+          let bad := (List.range n).filterMap fun u =>
+            match EA.ufuncs[u]?, E'.ufuncs[u]? with
+            | some fa, some fb =>
+              let ρ : Ren := ⟨fρ, yρ, xρ u, btρ⟩
+              let np := fa.sig.1.length
+              let wrap := fun (o : Op) => ({ o with args := wrapOffsets o.args } : Op)
+              let okSig := fb.sig == fa.sig && fb.imp == fa.imp && fb.lt.take np == fa.lt.take np
+              let okBody := (fa.body.ren ρ).flat.map wrap == fb.body.flat
+              let okLoc := fa.body.flat.all fun o =>
+                if isLocalOp o.name then
+                  (match o.args with
+                   | [.ref _ x] => fb.lt[xρ u x]? == fa.lt[x]?
+                   | _ => true)
+                else true
+              if okSig && okBody && okLoc then none
+              else some s!"function {u}: sig={okSig} body={okBody} locals={okLoc}"
+            | _, _ => some s!"function {u}: missing"
+          if !cFt then "ftab" else if !cTy then "types" else if !cBt then "block-types"
+          else if !bad.isEmpty then joinWith "; " bad
+          else
+            -- the output observed under both uid assignments
+            let o1 := observe mB seed rounds gas
+            let o2 := observeWith mB E'.ftab E'.usigs (invoke E' gas) seed rounds
+            if o1 = o2 then "ren-ok" else "uid-assignment-observable: " ++ firstDiff (o1.splitOn "; ") (o2.splitOn "; ") 0
+      | _, _, _ => "ill-formed"
+    | _, _, _ => "bad-op"
   | _ => "bad-op"
 
 end Walrus.Driver
